@@ -3,9 +3,13 @@ package props
 import (
 	"errors"
 	"fmt"
+	"math"
 	"math/rand"
+	"os"
+	"path/filepath"
 	"runtime"
 	"sort"
+	"strings"
 	"sync"
 	"sync/atomic"
 	"time"
@@ -21,9 +25,10 @@ import (
 // C05 — concurrent Get/Put/Delete are linearizable while flushes and compactions run.
 
 type linIn struct {
-	Op  int // 0 get, 1 put, 2 delete
-	Key string
-	Val string
+	Op    int // 0 get, 1 put, 2 delete
+	Key   string
+	Val   string
+	Maybe bool // the call returned an error: it may or may not have taken effect (it stays open until the end of the history)
 }
 type linOut struct {
 	Val   string
@@ -48,30 +53,57 @@ var linModel = porcupine.Model{
 		}
 		return out
 	},
-	Init: func() interface{} { return "" }, // "" = absent (values are never empty)
+	// The state is the SET of values the register may hold ("" = absent; values are never empty and never contain
+	// NUL), encoded as its sorted members joined by NUL. Without failed calls the set always has one member and this
+	// is the plain register model; a failed mutation maps S to S + {its effect} (the powerset construction of "took
+	// effect at this point, or never"), and a Get that returned v requires v in S and narrows S to {v}.
+	Init: func() interface{} { return "" },
 	Step: func(state, input, output interface{}) (bool, interface{}) {
 		in := input.(linIn)
 		st := state.(string)
 		switch in.Op {
-		case 1:
-			return true, in.Val
-		case 2:
-			return true, ""
+		case 1, 2:
+			v := in.Val
+			if in.Op == 2 {
+				v = ""
+			}
+			if !in.Maybe {
+				return true, v
+			}
+			set := strings.Split(st, "\x00")
+			for _, m := range set {
+				if m == v {
+					return true, st
+				}
+			}
+			set = append(set, v)
+			sort.Strings(set)
+			return true, strings.Join(set, "\x00")
 		default:
 			out := output.(linOut)
-			if !out.Found {
-				return st == "", st
+			want := ""
+			if out.Found {
+				want = out.Val
 			}
-			return st == out.Val, st
+			for _, m := range strings.Split(st, "\x00") {
+				if m == want {
+					return true, want
+				}
+			}
+			return false, st
 		}
 	},
 	DescribeOperation: func(input, output interface{}) string {
 		in := input.(linIn)
+		failed := ""
+		if in.Maybe {
+			failed = " FAILED"
+		}
 		switch in.Op {
 		case 1:
-			return fmt.Sprintf("Put(%s,%s)", in.Key, in.Val)
+			return fmt.Sprintf("Put(%s,%s)%s", in.Key, in.Val, failed)
 		case 2:
-			return fmt.Sprintf("Delete(%s)", in.Key)
+			return fmt.Sprintf("Delete(%s)%s", in.Key, failed)
 		}
 		out := output.(linOut)
 		if !out.Found {
@@ -102,6 +134,13 @@ func init() {
 func runC05(c *fw.Case) {
 	r := c.R
 	live := c.Idx%2 == 0
+	// every 10th history has a rotation that FAILS: when the clients are 25..70% through, a directory is planted where
+	// one of the next WAL files would be created, so the rotation that reaches that number fails, the call that
+	// triggered it returns an error (after its record was logged and applied) and every later mutation fails at the
+	// closed WAL; failed mutations are kept in the history as open "may have taken effect" calls, Gets must keep
+	// succeeding, and the chaos goroutine keeps attempting rotations
+	faulty := c.Idx%10 == 7
+	var planted, failedCalls, callsMade int32
 	nClients := 3 + r.Intn(4)
 	nKeys := 2 + r.Intn(4)
 	perClient := 150 + r.Intn(250)
@@ -188,13 +227,13 @@ func runC05(c *fw.Case) {
 				call := now()
 				switch {
 				case x < 40:
-					in = linIn{1, k, fmt.Sprintf("c%d-%d", cl, i)}
+					in = linIn{Op: 1, Key: k, Val: fmt.Sprintf("c%d-%d", cl, i)}
 					e = db.Put(k, in.Val)
 				case x < 55:
-					in = linIn{2, k, ""}
+					in = linIn{Op: 2, Key: k}
 					e = db.Delete(k)
 				default:
-					in = linIn{0, k, ""}
+					in = linIn{Key: k}
 					var v string
 					v, e = db.Get(k)
 					if e == nil {
@@ -204,6 +243,16 @@ func runC05(c *fw.Case) {
 					}
 				}
 				ret := now()
+				atomic.AddInt32(&callsMade, 1)
+				if e != nil && in.Op != 0 && atomic.LoadInt32(&planted) == 1 {
+					atomic.AddInt32(&failedCalls, 1)
+					in.Maybe = true
+					local = append(local, porcupine.Operation{ClientId: cl, Input: in, Call: call, Output: out, Return: math.MaxInt64 / 2})
+					// a client with an open call does not issue further calls (they would be ordered after a call that has
+					// not returned): it goes on under a fresh client id
+					cl += 100
+					continue
+				}
 				if e != nil {
 					mu.Lock()
 					if opErr == nil {
@@ -230,10 +279,23 @@ func runC05(c *fw.Case) {
 	go func() {
 		defer cwg.Done()
 		cr := rand.New(rand.NewSource(chaosSeed))
+		plantAt := int32(nClients * perClient * (25 + cr.Intn(45)) / 100)
 		for atomic.LoadInt32(&clientsDone) == 0 {
+			if faulty && atomic.LoadInt32(&planted) == 0 && atomic.LoadInt32(&callsMade) >= plantAt {
+				atomic.StoreInt32(&planted, 1)
+				hi := -1
+				ents, _ := os.ReadDir(filepath.Join(c.Dir, simpledb.WriteAheadFolder))
+				for _, e := range ents {
+					var n int
+					if _, err := fmt.Sscanf(e.Name(), "%06d.wal", &n); err == nil && n > hi {
+						hi = n
+					}
+				}
+				_ = os.Mkdir(filepath.Join(c.Dir, simpledb.WriteAheadFolder, fmt.Sprintf("%06d.wal", hi+2+cr.Intn(4))), 0700)
+			}
 			switch {
 			case cr.Intn(3) == 0:
-				if err := db.VerifForceRotate(); err != nil {
+				if err := db.VerifForceRotate(); err != nil && atomic.LoadInt32(&planted) == 0 {
 					chaosErr = fmt.Errorf("forced rotation: %w", err)
 					return
 				}
@@ -262,7 +324,7 @@ func runC05(c *fw.Case) {
 			opErr = fmt.Errorf("final read of %s: %w", key, e)
 			break
 		}
-		ops = append(ops, porcupine.Operation{ClientId: nClients, Input: linIn{0, key, ""}, Call: call, Output: out, Return: ret})
+		ops = append(ops, porcupine.Operation{ClientId: nClients, Input: linIn{Key: key}, Call: call, Output: out, Return: ret})
 	}
 	flIn := simpledb.VerifPointCount("flusher.done") - flush0
 	cpIn := simpledb.VerifPointCount("compaction.reflected") - comp0
@@ -279,9 +341,14 @@ func runC05(c *fw.Case) {
 		c.Violate("lin/background-cycle-error", "%s: %v", cfg, chaosErr)
 		return
 	}
-	if cerr != nil {
+	if cerr != nil && !faulty {
 		c.Violate("lin/close-error", "%s: %v", cfg, cerr)
 		return
+	}
+	if faulty {
+		cfg += fmt.Sprintf(" failing-rotation(failed calls=%d)", failedCalls)
+		c.Obs("histories_with_a_failing_rotation", 1)
+		c.Obs("mutations_that_returned_an_error_kept_as_open_calls", int64(failedCalls))
 	}
 	c.Obs("client_calls", int64(len(ops)))
 	c.Obs("flushes_inside_window", flIn)
@@ -291,7 +358,7 @@ func runC05(c *fw.Case) {
 	for _, op := range ops {
 		k := op.Input.(linIn).Key
 		byKey[k] = append(byKey[k], op)
-		c.HashAdd(op.ClientId, op.Input.(linIn).Op, k, op.Input.(linIn).Val, op.Output.(linOut).Val)
+		c.HashAdd(op.ClientId, op.Input.(linIn).Op, k, op.Input.(linIn).Val, op.Output.(linOut).Val, op.Input.(linIn).Maybe)
 	}
 	overlaps := int64(0)
 	for _, l := range byKey {
